@@ -35,6 +35,7 @@ VARIANTS = {
     "z":     ("g++", ["-O2", "-DUSINGZ"]),
     "asan":  ("clang++", ["-O1", "-g", "-fsanitize=address,undefined", "-fno-sanitize-recover=all", "-fno-omit-frame-pointer"]),
     "asanz": ("clang++", ["-O1", "-g", "-fsanitize=address,undefined", "-fno-sanitize-recover=all", "-fno-omit-frame-pointer", "-DUSINGZ"]),
+    "asanx": ("clang++", ["-O1", "-g", "-fsanitize=address,undefined", "-fno-sanitize=signed-integer-overflow", "-fno-sanitize-recover=all", "-fno-omit-frame-pointer"]),
     "tsan":  ("clang++", ["-O1", "-g", "-fsanitize=thread"]),
 }
 
